@@ -89,6 +89,32 @@ def _build_harness(race=False):
     return out
 
 
+def crash_kind(out):
+    """Classify the death of a harness process: "deadlock" (every goroutine blocked), "statedb" (a panic or fatal
+    error raised on a goroutine whose innermost non-runtime frame is code of the library) or None (anything else,
+    e.g. a defect of the harness itself, which must never be reported as a violation)."""
+    if "fatal error: all goroutines are asleep - deadlock!" in out:
+        return "deadlock"
+    if "panic:" not in out and "fatal error:" not in out:
+        return None
+    lines = out.splitlines()
+    for i, ln in enumerate(lines):
+        if ln.startswith("goroutine ") and "[running" in ln:
+            for fr in lines[i + 1:i + 60]:
+                if not fr.strip():
+                    break
+                if fr.startswith(("\t", " ")):
+                    continue                      # file:line of the frame above
+                fn = fr.split("(")[0]
+                if fn.startswith(("runtime.", "runtime/", "internal/", "panic", "sync.", "sync/", "testing.",
+                                  "iter.", "maps.", "slices.", "sort.", "reflect.", "created by")):
+                    continue
+                if "github.com/cilium/statedb" in fn:
+                    return "statedb"
+                return None
+    return None
+
+
 def run_harness(driver, scripts_path, outdir, race=False, timeout=1800, extra_env=None, tag=""):
     """Execute scripts on the real code. Returns (trace_path, bounds_path, ntraces, nevents).
     When the code under test panics the harness logs the panic, exits with status 75 and is
@@ -102,6 +128,7 @@ def run_harness(driver, scripts_path, outdir, race=False, timeout=1800, extra_en
         env.update(extra_env)
     t0 = time.time()
     restarts = 0
+    reran = False
     while True:
         try:
             p = subprocess.run([binp, "-test.run", "^TestDriver$", "-test.timeout", "0", "-test.count", "1"],
@@ -131,7 +158,17 @@ def run_harness(driver, scripts_path, outdir, race=False, timeout=1800, extra_en
             continue
         if p.returncode != 0:
             out = p.stdout + p.stderr
-            crashed = ("panic:" in out or "fatal error:" in out) and env.get("VERIF_FLUSH")
+            crashed = crash_kind(out)
+            if crashed and not env.get("VERIF_FLUSH") and not reran:
+                # the events of the run were buffered: run the same scripts again, flushing every event, so
+                # that the trace up to the crash exists and the crash can be judged by the specification
+                reran = True
+                env["VERIF_FLUSH"] = "1"
+                env.pop("VERIF_RESUME_FROM", None)
+                for f in (trace, bounds, trace + ".resume"):
+                    if os.path.exists(f):
+                        os.remove(f)
+                continue
             if crashed and restarts < 200:
                 # the process died inside the code under test (a panic on a goroutine the harness does not
                 # own, or a fatal runtime error): close the unfinished trace with a crash event and resume
@@ -143,7 +180,8 @@ def run_harness(driver, scripts_path, outdir, race=False, timeout=1800, extra_en
                 complete = [x for x in tl[:-1]] if tl else []
                 ids = [json.loads(x)["id"] for x in read_lines(scripts_path)]
                 msg = [ln for ln in out.splitlines() if ln.startswith("panic:") or ln.startswith("fatal error:")][:1]
-                crash_ev = json.dumps({"op": "panic", "during": "crash", "msg": (msg[0] if msg else "crash")[:200], "ctx": "process"})
+                crash_ev = json.dumps({"op": "panic", "during": "crash", "msg": (msg[0] if msg else "crash")[:200], "ctx": "process",
+                                       "kind": crashed})
                 with open(trace, "w") as f:
                     f.write("\n".join(complete + [crash_ev]) + "\n")
                 with open(bounds, "a") as f:
